@@ -28,6 +28,8 @@ structure Key where
   kind : KeyKind
   /-- a typed nil pointer such as `(*rsa.PublicKey)(nil)`: passes the type assertion, the primitive dereferences it -/
   isNil : Bool := false
+  /-- a pointer to the zero value (`&rsa.PublicKey{}`, `&ecdsa.PublicKey{}`, `&dsa.PublicKey{}`): nil modulus / curve / parameters -/
+  hollow : Bool := false
   /-- RSA: `N.BitLen()` -/
   bits : Nat := 0
   /-- ECDSA: `*Params() == *elliptic.P256().Params()` -/
@@ -35,6 +37,14 @@ structure Key where
   /-- which key it is (opaque) -/
   id : Nat := 0
 deriving DecidableEq, Repr
+
+/-- does handing this key to its verification primitive dereference a nil pointer?  (typed nil pointers; zero-valued
+ECDSA/DSA keys — `rsa.VerifyPKCS1v15` reports a zero-valued RSA key as an error instead) -/
+def Key.primPanics (k : Key) : Bool := k.isNil || (k.hollow && k.kind != .rsa)
+
+/-- does `NewSignatureVerifier` dereference a nil pointer on this key?  (`pkType.N.BitLen()`, `pkType.Params()`:
+typed nil or zero-valued RSA/ECDSA keys; other types reach the `default` branch untouched) -/
+def Key.ctorPanics (k : Key) : Bool := (k.isNil || k.hollow) && (k.kind == .rsa || k.kind == .ecdsa)
 
 /-- what a primitive is given as the signature value -/
 inductive SigVal
@@ -67,7 +77,7 @@ def verifyPair (P : Prims) (key : Key) (h : Nat) (d : Bytes) (alg : Nat) (traili
     if !trailingIgnored && !p.rest.isEmpty then .err
     else if Gen.sigReject alg p.r p.s then .err
     else if Gen.sigExactDER alg && !p.extra.isEmpty then .err   -- checkExactDER, where the code has it
-    else if key.isNil then .panic
+    else if key.primPanics then .panic
     else if P.prim key h d (.pair p.r p.s) then .ok else .err
 
 /-- tls.VerifySignature(pubKey, data, sig) -/
@@ -81,13 +91,18 @@ def verifySignature (P : Prims) (key : Key) (data : Bytes) (ds : DigitallySigned
     | some (kind, der, trailingIgnored, _) =>
       if key.kind.name ≠ kind then .err            -- "cannot verify … signature with %T key"
       else if !der then
-        if key.isNil then .panic
+        if key.primPanics then .panic
         else if P.prim key h d (.raw ds.sig) then .ok else .err
       else verifyPair P key h d ds.sigAlg trailingIgnored ds.sig
 
-/-- ct.NewSignatureVerifier(pk) with `AllowVerificationWithNonCompliantKeys = allow`: is a verifier returned? -/
+/-- ct.NewSignatureVerifier(pk) with `AllowVerificationWithNonCompliantKeys = allow`, for a key on which it returns:
+is a verifier returned?  Only key types with a case in the type switch (`Gen.newVerifierKinds`) can get one. -/
 def newVerifier (key : Key) (allow : Bool) : Bool :=
-  (Gen.newVerifier key.kind.name key.bits key.isP256 allow).isSome
+  Gen.newVerifierKinds.contains key.kind.name && (Gen.newVerifier key.kind.name key.bits key.isP256 allow).isSome
+
+/-- ct.NewSignatureVerifier(pk), all keys: nil / zero-valued RSA and ECDSA keys panic inside the type switch -/
+def newVerifierOutcome (key : Key) (allow : Bool) : Outcome :=
+  if key.ctorPanics then .panic else if newVerifier key allow then .ok else .err
 
 /-- the signed fields of an SCT (LogID is not signed) -/
 structure SCT where
@@ -106,27 +121,57 @@ structure STH where
   sig : DigitallySigned
 deriving DecidableEq
 
-/-- SignatureVerifier.VerifySCTSignature -/
+/-- SignatureVerifier.VerifySCTSignature: serialise, return the error, else VerifySignature over exactly those bytes
+(shape regenerated: `Gen.sctVerifySerializesThenVerifies`) -/
 def verifySCT (P : Prims) (key : Key) (sct : SCT) (e : Entry) : Outcome :=
+  if !Gen.sctVerifySerializesThenVerifies then .ok else
   match sctSigInput sct.version sct.timestamp e sct.extensions with
   | none => .err
   | some msg => verifySignature P key msg sct.sig
 
-/-- SignatureVerifier.VerifySTHSignature -/
+/-- SignatureVerifier.VerifySTHSignature (shape regenerated: `Gen.sthVerifySerializesThenVerifies`) -/
 def verifySTH (P : Prims) (key : Key) (sth : STH) : Outcome :=
+  if !Gen.sthVerifySerializesThenVerifies then .ok else
   match sthSigInput sth.version sth.timestamp sth.treeSize sth.root with
   | none => .err
   | some msg => verifySignature P key msg sth.sig
 
+/-- what a Go caller can put into `LogEntry.Leaf.TimestampedEntry` for `VerifySCTSignature`: a well-formed entry, or one
+of the nil pointers `SerializeSCTSignatureInput` does not guard (every caller inside the repository sets them) -/
+inductive EntryArg
+  | entry (e : Entry)
+  | nilX509               -- EntryType = x509_entry, X509Entry = nil: tls.Marshal reports "chosen field is nil"
+  | nilPrecert            -- EntryType = precert_entry, PrecertEntry = nil: dereferenced
+  | nilTimestampedEntry   -- Leaf.TimestampedEntry = nil: dereferenced
+deriving DecidableEq
+
+/-- VerifySCTSignature on arbitrary Go arguments: the version switch comes before any dereference -/
+def verifySCTArg (P : Prims) (key : Key) (sct : SCT) (a : EntryArg) : Outcome :=
+  match a with
+  | .entry e => verifySCT P key sct e
+  | .nilX509 => .err
+  | .nilPrecert => if sct.version = 0 then .panic else .err
+  | .nilTimestampedEntry => if sct.version = 0 then .panic else .err
+
+/-- ctutil.VerifySCT / VerifySCTWithVerifier / LogInfo.VerifySCTSignature: the key policy, then the SCT verification
+for the leaf built from the chain (the leaf builder is C03's subject: `e` is its result) -/
+def ctutilVerifySCT (P : Prims) (key : Key) (allow : Bool) (sct : SCT) (e : Entry) : Outcome :=
+  if !Gen.ctutilPolicyThenVerify then verifySCT P key sct e else
+  match newVerifierOutcome key allow with
+  | .ok => verifySCT P key sct e
+  | .err => .err
+  | .panic => .panic
+
 inductive Loaded (α : Type) | ok (v : α) | err | panic
 deriving Repr, DecidableEq
 
-/-- loglist3.NewFromSignedJSON(llData, rawSig, pubKey); `parse` stands for NewFromJSON -/
+/-- loglist3.NewFromSignedJSON(llData, rawSig, pubKey); `parse` stands for NewFromJSON.  The order "verify, then
+parse" is the regenerated `Gen.signedJSONVerifiesBeforeParse`. -/
 def newFromSignedJSON {α : Type} (P : Prims) (parse : Bytes → Option α) (key : Key) (llData rawSig : Bytes) : Loaded α :=
   match Gen.signedJSONAlg.lookup key.kind.name with
   | none => .err                                   -- unsupported public key type
   | some alg =>
-    match verifySignature P key llData ⟨Gen.signedJSONHash, alg, rawSig⟩ with
+    match (if Gen.signedJSONVerifiesBeforeParse then verifySignature P key llData ⟨Gen.signedJSONHash, alg, rawSig⟩ else .ok) with
     | .ok => (match parse llData with | some v => .ok v | none => .err)
     | .err => .err
     | .panic => .panic
